@@ -69,6 +69,11 @@ CHECKS["C09"] = dict(engine="Generate", ref="3 (C09)",
     note="Trusted: TLC; one concrete representative per class and record. Library path only. 13 syntax-collision classes are known findings (an output line that looks like document syntax is written verbatim), printed as KNOWN-FINDING.",
     technique="TLA+ enumeration of output shapes with a class table, replay through generate;parse;validate of the real code, TLC judgement of every record")
 
+CHECKS["C10"] = dict(engine="MarkdownDoc", ref="3 (C10)",
+    text="The documents enumerated by specs/MarkdownDoc.tla (8245 quick, incl. front-matter, verbatim blocks, nested fences, command-less and unterminated blocks) are combined with every assignment of outcome classes {pass, changed output, changed exit code} to their tests (<= 2 tests: all 3^t, more: sampled) and pushed through the real MarkdownUpdateGenerator. specs/UpdateProps.tla states C10 over the original's segment structure and an observation of the updated document (a scanner that only knows the original's outside chunks decomposes it into chunk0 block1 chunk1 ...): everything outside scrut blocks identical and in order, same number and order of blocks, language / inline config / comment lines kept, lines of passing tests and of command-less blocks kept exactly, second update changes nothing, updated document parses to the same commands and passes on the outputs it was updated with. TLC recomputes the chunks from lines + segments (binding the scanner's input) and judges every record.",
+    note="Trusted: TLC; the scanner (30 lines, checked against the spec's chunk computation on every record); line terminators normalised. Documents rejected or read differently by the parser are C06's subject.",
+    technique="TLA+ document model + update property predicates, enumerated documents x outcome assignments replayed into MarkdownUpdateGenerator, TLC judgement of every record")
+
 NOT_YET = {
 }
 
@@ -112,8 +117,8 @@ def main():
              "kind_free_text": "TLA+ spec of DiffTool::diff with reference language semantics; MC_DiffAlgo (TLC MC/GEN), DiffTrace (result-level trace validation), DiffStepTrace (step-level trace validation of hook events)"},
             {"name": "TestCommand", "path": "specs/TestCommand.tla", "serves_properties": ["C05", "C14", "C15", "C20"],
              "kind_free_text": "TLA+ spec of `scrut test` end to end: TestCommandProps (scenario structure + property predicates), TestCommand (the machine), MC_TestCommand (scenario families, TLC MC/GEN), TestCommandTrace (TLC evaluation of observed runs); run/scenario.py materialises and runs scenarios with the real binary"},
-            {"name": "MarkdownDoc", "path": "specs/MarkdownDoc.tla", "serves_properties": ["C06"],
-             "kind_free_text": "TLA+ spec of Markdown test documents: reference reading MdRef, tokenizer machine MdTok, MC_MarkdownDoc (equivalence + GEN), MarkdownTrace (comparison of real parses)"},
+            {"name": "MarkdownDoc", "path": "specs/MarkdownDoc.tla", "serves_properties": ["C06", "C10"],
+             "kind_free_text": "TLA+ spec of Markdown test documents: reference reading MdRef, tokenizer machine MdTok, MC_MarkdownDoc (equivalence + GEN), MarkdownTrace (comparison of real parses), UpdateProps/UpdateTrace (C10 predicates over updated documents)"},
             {"name": "CramDoc", "path": "specs/CramDoc.tla", "serves_properties": ["C07"],
              "kind_free_text": "TLA+ spec of Cram documents: positional reference CramRef, line machine CramTok, MC_CramDoc (equivalence + GEN), CramTrace (comparison of real parses)"},
             {"name": "ExpectationGrammar", "path": "specs/ExpectationGrammar.tla", "serves_properties": ["C08"], "kind_free_text": "token-level grammar of expectation lines (ParseRef), MC_ExpectationGrammar (GEN + sanity), ExpectationTrace (judgement of real parses and round trips)"},
